@@ -1,0 +1,46 @@
+// Copyright 2017-2021 Lei Ni (nilei81@gmail.com) and other contributors.
+//
+// Licensed under the Apache License, Version 2.0 (the "License");
+// you may not use this file except in compliance with the License.
+// You may obtain a copy of the License at
+//
+//     http://www.apache.org/licenses/LICENSE-2.0
+//
+// Unless required by applicable law or agreed to in writing, software
+// distributed under the License is distributed on an "AS IS" BASIS,
+// WITHOUT WARRANTIES OR CONDITIONS OF ANY KIND, either express or implied.
+// See the License for the specific language governing permissions and
+// limitations under the License.
+
+//go:build !verif
+
+// Package verifhook provides observation points for external runtime
+// monitors. Without the verif build tag every function in this package is
+// empty and is inlined away.
+package verifhook
+
+import (
+	pb "github.com/lni/dragonboat/v4/raftpb"
+)
+
+// Enabled tells whether the hooks are compiled in.
+const Enabled = false
+
+// Point ids.
+const (
+	PreSave = iota
+	PostSave
+	ProposalCommittedWindow
+	ReadIndexWindow
+	NativeSMClose
+	NumPoints
+)
+
+// Point is a named observation point.
+func Point(id int, a uint64, b uint64) {}
+
+// Send observes a message about to be handed to the transport.
+func Send(m *pb.Message) {}
+
+// Updates observes the updates of a step worker iteration.
+func Updates(id int, uds []pb.Update) {}
